@@ -255,6 +255,9 @@ def run_traffic(sc):
                 sub_ele(node, 'tag').text = tag
                 t0 = time.time()
                 try:
+                    if sc.get('reseed') is not None:
+                        # an application that seeds the global RNG for its own reproducibility: message-ids must stay unique all the same
+                        random.seed(sc['reseed'])
                     r = m.rpc(node)
                     x = reply_text(r)
                     tg = re.search(r'<(?:\w+:)?tag>([^<]*)</', x)
@@ -507,7 +510,7 @@ def run_lifecycle(sc):
                 calls['after_close'] += 1
     calls['closed_done'] = False
     try:
-        m = connect(srv, sc, timeout=3)
+        m = connect(srv, sc, timeout=sc.get('connect_timeout', 3))
         sess = m._session
         sess.add_listener(Counting())
         inflight = {}
@@ -540,6 +543,9 @@ def run_lifecycle(sc):
         how = sc.get('how', 'close_session')
         if sc.get('no_close_reply'):
             m.timeout = 0.5
+        if sc.get('async_close'):
+            m.async_mode = True      # the application works asynchronously; closing must release the session all the same
+        res['call_timeout'] = m.timeout
         t0 = time.time()
         try:
             if how == 'close_session':
@@ -566,11 +572,11 @@ def run_lifecycle(sc):
         calls['closed'] = True
         res['close_dt'] = time.time() - t0
         res['connected_after'] = m.connected
-        deadline = time.time() + sc.get('worker_deadline', 1.5)
+        deadline = time.time() + sc.get('worker_deadline', 4)
         while time.time() < deadline and sess.is_alive():
             time.sleep(0.02)
         res['worker_alive'] = sess.is_alive()
-        res['worker_deadline'] = sc.get('worker_deadline', 1.5)
+        res['worker_deadline'] = sc.get('worker_deadline', 4)
         srv.stop_reading.clear()
         calls['closed_done'] = True
         res['eof_seen'] = srv.eof_seen.wait(1.0)
